@@ -93,6 +93,7 @@ class VLoop(asyncio.SelectorEventLoop):
         self._injections: dict[int, list[Callable[[], None]]] = {}
         self._step_hooks: list[Callable[[int], None]] = []
         self._executor_jobs = 0
+        self.sig_handlers: dict[int, tuple] = {}
         orig = self._selector.select
 
         def select(timeout: float | None = None) -> Any:
@@ -144,6 +145,20 @@ class VLoop(asyncio.SelectorEventLoop):
 
     def add_step_hook(self, fn: Callable[[int], None]) -> None:
         self._step_hooks.append(fn)
+
+    # ---- signals: recorded, never installed (the harness "sends" them by calling the handler)
+    def add_signal_handler(self, sig: Any, callback: Any, *args: Any) -> None:  # type: ignore[override]
+        self.sig_handlers[int(sig)] = (callback, args)
+
+    def remove_signal_handler(self, sig: Any) -> bool:  # type: ignore[override]
+        return self.sig_handlers.pop(int(sig), None) is not None
+
+    def send_signal(self, sig: Any = 15) -> bool:
+        h = self.sig_handlers.get(int(sig))
+        if h is None:
+            return False
+        h[0](*h[1])
+        return True
 
     # ---- executor accounting
     def run_in_executor(self, executor: Any, func: Any, *args: Any) -> Any:  # type: ignore[override]
